@@ -1,5 +1,6 @@
 import DeltaModel.Proto
 import DeltaModel.Ansi
+import DeltaModel.Links
 /-!
 Model driver `drv_ansi`: answers the same `ansi.*` requests as `/repo/src/verif_hooks/ansi.rs`.
 Unicode data (string widths, grapheme clusters) arrive as tables in the request; a missing entry
@@ -132,6 +133,124 @@ def decStyles : List String → Option (List Style)
     let r ← decStyles r
     pure (s :: r)
 
+/-! ### `Links` ops. Conventions: `-` = none; the absolute path of a file is given by the caller
+(`-` when none can be formed), the link format and host name explicitly. -/
+
+def optBytes (f : String) : Option (Option Bytes) :=
+  if f == "-" then some none else (bytesOfField f).map some
+
+def optNat (f : String) : Option (Option Nat) :=
+  if f == "-" then some none else (natOfField f).map some
+
+open Links in
+/-- A `Cfg` whose `absolute_path` answers from a table (`-` = cwd unknown: every lookup fails). -/
+def mkCfg (fmt : Bytes) (host : Option Bytes) (cf : CommitFmt) (abs : List (Bytes × Option Bytes)) : Cfg :=
+  let known := abs.all fun (_, p) => p.isSome
+  { fileFmt := fmt, host := host, commitFmt := cf,
+    path := { cwdOfDelta := if known then some [] else none, cwdOfUserShell := none, relativeToCwd := false,
+              join := fun _ rel => match abs.find? (·.1 == rel) with
+                | some (_, some p) => p
+                | _ => rel } }
+
+def parseSpans : List String → Option (List (Nat × Nat))
+  | [] => some []
+  | f :: rest => do
+    match f.splitOn ":" with
+    | [a, b] =>
+      let a ← a.toNat?
+      let b ← b.toNat?
+      let r ← parseSpans rest
+      pure ((a, b) :: r)
+    | _ => none
+
+open Links in
+def commitFmtOf (kind : String) (arg : Bytes) : Option CommitFmt :=
+  match kind with
+  | "template" => some (.template arg)
+  | "github" => some (.remote (.github arg))
+  | "gitlab" => some (.remote (.gitlab arg))
+  | "sourcehut" => some (.remote (.sourcehut arg))
+  | "codeberg" => some (.remote (.codeberg arg))
+  | "none" => some .none
+  | _ => none
+
+open Links in
+def stepLinks (line : String) : String :=
+  match fields line with
+  | ["links.osc8", url, text] =>
+    match bytesOfField url, bytesOfField text with
+    | some u, some t => "ok " ++ hexOfBytes (osc8 u t)
+    | _, _ => "ERR"
+  -- links.file_link <fmt> <host|-> <abs> <line|-> <text>
+  | ["links.file_link", fmt, host, abs, ln, text] =>
+    match bytesOfField fmt, optBytes host, bytesOfField abs, optNat ln, bytesOfField text with
+    | some fmt, some host, some abs, some ln, some text => "ok " ++ hexOfBytes (fileLink fmt host abs ln text)
+    | _, _, _, _, _ => "ERR"
+  -- links.commit_line <kind> <arg> <line> <span>*
+  | "links.commit_line" :: kind :: arg :: l :: spans =>
+    match bytesOfField arg, bytesOfField l, parseSpans spans with
+    | some arg, some l, some spans =>
+      match commitFmtOf kind arg with
+      | some cf => exc ((formatCommitLine cf spans l).map fun r => "ok " ++ hexOfBytes r)
+      | none => "ERR"
+    | _, _, _ => "ERR"
+  -- links.line_number <links> <fmt> <host|-> <abs|-> <n|-> <file|-> <padded> <blank>
+  | ["links.line_number", links, fmt, host, abs, n, file, padded, blank] =>
+    match natOfField links, bytesOfField fmt, optBytes host, optBytes abs, optNat n, optBytes file,
+      bytesOfField padded, bytesOfField blank with
+    | some links, some fmt, some host, some abs, some n, some file, some padded, some blank =>
+      let c := mkCfg fmt host .none [(file.getD [], abs)]
+      "ok " ++ hexOfBytes (formatLineNumber c (links == 1) n file (fun _ => padded) blank)
+    | _, _, _, _, _, _, _, _ => "ERR"
+  -- links.file_path <links> <fmt> <host|-> <abs|-> <file> <line|-> <painted>
+  | ["links.file_path", links, fmt, host, abs, file, ln, painted] =>
+    match natOfField links, bytesOfField fmt, optBytes host, optBytes abs, bytesOfField file, optNat ln,
+      bytesOfField painted with
+    | some links, some fmt, some host, some abs, some file, some ln, some painted =>
+      let c := mkCfg fmt host .none [(file, abs)]
+      "ok " ++ hexOfBytes (filePathWithLineNumber c (links == 1) file ln painted)
+    | _, _, _, _, _, _, _ => "ERR"
+  -- links.diff_stat <links> <fmt> <host|-> <abs|-> <path in repo> <relative path> <suffix> <align width>
+  | ["links.diff_stat", links, fmt, host, abs, path, rel, suffix, w] =>
+    match natOfField links, bytesOfField fmt, optBytes host, optBytes abs, bytesOfField path,
+      bytesOfField rel, bytesOfField suffix, natOfField w with
+    | some links, some fmt, some host, some abs, some path, some rel, some suffix, some w =>
+      let c := mkCfg fmt host .none [(path, abs)]
+      "ok " ++ hexOfBytes (diffStatLine c (links == 1) path rel suffix w)
+    | _, _, _, _, _, _, _, _ => "ERR"
+  -- links.file_change <links> <fmt> <host|-> <kind> <label> <arrow> <minus> <abs minus|-> <plus> <abs plus|->
+  | ["links.file_change", links, fmt, host, kind, label, arrow, minus, am, plus, ap] =>
+    match natOfField links, bytesOfField fmt, optBytes host, bytesOfField label, bytesOfField arrow,
+      bytesOfField minus, optBytes am, bytesOfField plus, optBytes ap with
+    | some links, some fmt, some host, some label, some arrow, some minus, some am, some plus, some ap =>
+      let k := match kind with
+        | "same" => some FileChange.same | "removed" => some FileChange.removed
+        | "added" => some FileChange.added | "renamed" => some FileChange.renamed | _ => none
+      match k with
+      | some k =>
+        let c := mkCfg fmt host .none [(minus, am), (plus, ap)]
+        "ok " ++ hexOfBytes (fileChangeDescription c (links == 1) k label arrow minus plus id)
+      | none => "ERR"
+    | _, _, _, _, _, _, _, _, _ => "ERR"
+  -- links.absolute_path <cwd delta|-> <cwd user|-> <relative to cwd 0/1> : which base is joined
+  | ["links.absolute_path", d, u, r] =>
+    match optBytes d, optBytes u, natOfField r with
+    | some d, some u, some r =>
+      let c : PathCfg := { cwdOfDelta := d, cwdOfUserShell := u, relativeToCwd := r == 1,
+                           join := fun base _ => base }
+      match absolutePath c [] with
+      | some base => "ok " ++ hexOfBytes base
+      | none => "ok none"
+    | _, _, _ => "ERR"
+  -- links.scan <s>: the specification-side scanner (stripped text, final link state)
+  | ["links.scan", s] =>
+    match bytesOfField s with
+    | some s =>
+      "ok " ++ hexOfBytes (stripOsc8 s) ++ " " ++
+        (match finalLink s with | some u => hexOfBytes u | none => "-")
+    | none => "ERR"
+  | _ => "ERR"
+
 def step (line : String) : String :=
   match fields line with
   | ["ansi.elements", s] =>
@@ -203,7 +322,7 @@ def step (line : String) : String :=
        | some ps => "ok " ++ encRendition (renditionOfStyle (sgrToStyle ps)) ++ " " ++ encRendition (applySgr {} ps)
        | none => "ok none")
     | none => "ERR"
-  | _ => "ERR"
+  | _ => stepLinks line
 
 end DrvAnsi
 
